@@ -265,7 +265,8 @@ reg("C02",
     note="Bounded: T=2/4/8, depth<=3 (depth 3 only with merge orders within a window of 2 and in the thorough tier); pixel patterns are lifted T x T patterns, not arbitrary noise. "
          "Domain: integer tiles non-negative (incl. int32 values above 2^24), no all-zero integer leaf; stale parents only where a child exists (childless stale parents are not "
          "judged); float means within 2 ulp per level; jpg approximately. Trusted: TLC, JSON bridge, numpy/astropy/PIL readers, the lifting map (verified numerically). Real parallel "
-         "cascades are sampled, not schedule-exhaustive; order-independence is exhaustive in the spec only (the walk's ordering guarantee is C01's).",
+         "cascades are sampled, not schedule-exhaustive; order-independence is exhaustive in the spec only (the walk's ordering guarantee is C01's). +/-inf pixels are defined "
+         "values: a block with +inf (or -inf) averages to it; a block holding both infinities has no mean and the output is undefined (IEEE).",
     technique="TLA+/TLC exhaustive model checking of the cascade machine over enumerated pyramids + TLC-computed expected pyramids lifted and replayed into the real cascade",
     design_ref="DESIGN.md 4.5, 3 (M4, M5), 5/C02")
 
@@ -276,7 +277,8 @@ reg("C14",
          "The FITS pyramids are written by the real PyramidIO (some leaves twice via update_image with a widening range), cascaded by cascade_images / CLI / Builder.cascade serially "
          "and with 2-3 real processes; DATAMIN/DATAMAX of every tile (astropy), Builder's imageset data_min/data_max and the DataMin/DataMax attributes of the written index_rel.wtml "
          "are compared at float32 precision with TLC's ranges.",
-    note="Leaves written by toasty; values finite or NaN and exactly representable in float32. +/-inf pixels are outside the quantifier ('finite data value') and not judged (observed: the "
-         "card with an infinite extreme is omitted and ancestors then miss that leaf's finite extreme - recorded in the evidence). Bounds as for C02 (T=2/4/8, depth<=3).",
+    note="Leaves written by toasty (some twice via update_image). Pixels finite, NaN or +/-inf: the range is over the FINITE values only, a tile with no finite value beneath it "
+         "must carry no DATAMIN/DATAMAX card; finite values exactly representable in float32. Outside the domain (skipped by the spec's Init): pyramids in which a whole tile vanishes "
+         "only because +inf and -inf cancel in every block. Builder/WTML runs only on pyramids whose root has a finite value beneath it. Bounds as for C02 (T=2/4/8, depth<=3).",
     technique="TLA+/TLC model checking of the range rule under all merge orders + replay of TLC's expected ranges against headers, ImageSet and WTML of real cascaded FITS pyramids",
     design_ref="DESIGN.md 4.5, 5/C14")
